@@ -15,6 +15,9 @@ theorem inv_step {s s' : State} {t : Nat} {l : Label} (h : Inv s) (hs : step s t
   | sRel2 a tl => exact step_sRel2 h hp hs
   | sParked a tl => exact step_sParked h hp hs
   | sWoke a tl => exact step_sWoke h hp hs
+  | sAlertT a x => exact step_sAlertT h hp hs
+  | sAlertLen a tl => exact step_sAlertLen h hp hs
+  | sAlertNum a tl => exact step_sAlertNum h hp hs
   | sPost a => exact step_sPost h hp hs
   | sAct a b => exact step_sAct h hp hs
   | sRel r => exact step_sRel h hp hs
@@ -71,6 +74,11 @@ theorem inv_signal {s : State} (u : Nat) (h : Inv s) : Inv (signal s u) := by
     · exact Or.inr (Or.inl h1)
     · exact Or.inr (Or.inr h1)
 
+theorem inv_stall {s : State} (u : Nat) (h : Inv s) : Inv (stall s u) := by
+  unfold stall
+  obtain ⟨mutex, room, popNe, woke, tout, fifo, cnt⟩ := h
+  constructor <;> assumption
+
 theorem inv_envClose {s : State} (h : Inv s) : Inv (envClose s) := by
   unfold envClose
   obtain ⟨mutex, room, popNe, woke, tout, fifo, cnt⟩ := h
@@ -81,11 +89,12 @@ theorem inv_envClose {s : State} (h : Inv s) : Inv (envClose s) := by
 
 theorem reach_inv {s : State} (h : sys.Reach s) : Inv s := by
   refine Sys.Reach.invariant sys (P := Inv) ?_ ?_ ?_ h
-  · rintro s ⟨m, a, d, rfl⟩; exact inv_init m a d
-  · rintro s s' hi (⟨t, op, hc⟩ | ⟨x, rfl⟩ | ⟨t, rfl⟩ | rfl)
+  · rintro s ⟨m, a, sl, d, rfl⟩; exact inv_init m a sl d
+  · rintro s s' hi (⟨t, op, hc⟩ | ⟨x, rfl⟩ | ⟨t, rfl⟩ | ⟨t, rfl⟩ | rfl)
     · exact inv_call hi hc
     · exact inv_fireTill x hi
     · exact inv_signal t hi
+    · exact inv_stall t hi
     · exact inv_envClose hi
   · intro s s' t l hi hs; exact inv_step hi hs
 
